@@ -210,8 +210,20 @@ def _merge(res, leg, children):
 
 def _with_children(leg, fn, tier, seed, **kw):
     if tier != "thorough":
-        res = fn(tier, seed, **kw)
-        res["info"]["interpreters"] = {label: {"skipped": "thorough tier only"} for label, _, _ in OTHER_INTERPRETERS}
+        # the other interpreters (3.11, and 3.10 / 3.9 whose block-stack code path in
+        # _lowlevel_cpython_310.py is never executed by the default interpreter) run the same quick corpus
+        # in child processes while this process does the quick one
+        t0 = time.time()
+        handles = start_children([leg], "quick", seed, {}, 0) if tier == "quick" else []
+        try:
+            res = fn(tier, seed, **kw)
+        finally:
+            children = collect_children(handles, "quick") if handles else []
+        if handles:
+            res = _merge(res, leg, children)
+            res["info"]["wall_total"] = round(time.time() - t0, 2)
+        else:
+            res["info"]["interpreters"] = {label: {"skipped": "quick and thorough tiers only"} for label, _, _ in OTHER_INTERPRETERS}
         return res
     t0 = time.time()
     n = SHARDS["self"]
